@@ -180,6 +180,11 @@ def known_match(case, clause, detail, findings):
     # F17: lazy_parallel_map drops buffered results when the SOURCE raises
     if clause == 'truncated_before_error' and detail.get('source_raised') and any(f['id'] == 'F17' for f in findings):
         return 'F17'
+    # the same defect seen from the other side: a queued FAILING result is dropped too, so the source's
+    # exception overtakes the exception of an earlier example
+    if clause == 'error_not_surfaced' and case['proto'] == 'lpm' and case['cfg'].get('ending') is not None \
+            and detail.get('raised') == case['cfg']['ending'] and any(f['id'] == 'F17' for f in findings):
+        return 'F17'
     return None
 
 
